@@ -34,7 +34,8 @@ fn run<S: shared::src_trait::Src>(harness: &str, src: &mut S) -> Outcome {
         h if h.starts_with("c03_") => r_c03::run(h, src),
         "c04_reply_paths" => r_c04::reply_paths(src),
         "c05_gate" => r_c05::gate(src),
-        "c12_error_position" => r_c12::error_position(src),
+        "c12_error_position" => r_c12::error_position(src, 4),
+        "c12_error_position_len6" => r_c12::error_position(src, 6),
         "c14_execute_step" => r_c14::execute_step(src, 5),
         "c14_execute_step_b8" => r_c14::execute_step(src, 8),
         h if h.starts_with("c16_activation") => r_c16::activation(src),
